@@ -227,7 +227,7 @@ func Check(c Case) ([]evid.Violation, info) {
 
 var patternPool = []string{"/", "/api/", "/pfx", "/twirp", "/a", "/a/b", "/api", "/a/", "/a/b/", "/x.y/", "/twirp/"}
 var nearPrefixes = []string{"/bad", "/apix", "/pf", "/a/bx", "/ap", "/twir", "/A", "/api/v2"}
-var muxPaths = []string{"/v1/abc", "/v1/abc:act", "/v1/books/shelves/s1", "/any/x/y", "/nope", "/v1", "/rt.Svc0/Mth0", "/rt.Svc1/Mth1", "/v1/é", "/v1/abc/", "/any/api/v1/x", "/a/b/v1/q"}
+var muxPaths = []string{"/v1/abc", "/v1/abc:act", "/v1/books/shelves/s1", "/any/x/y", "/nope", "/v1", "/rt.Svc0/Mth", "/rt.Svc1/Mth", "/v1/é", "/v1/abc/", "/any/api/v1/x", "/a/b/v1/q"}
 
 func genCase(t *rapid.T) Case {
 	var c Case
@@ -275,10 +275,10 @@ func genCase(t *rapid.T) Case {
 				r.Body = rapid.SampledFrom([]string{"", `{"other":"o"}`, `{"name":"n2","n":3}`, `{bad`}).Draw(t, "body")
 			}
 		case "twirp":
-			r.MuxPath = rapid.SampledFrom([]string{"/rt.Svc0/Mth0", "/rt.Svc1/Mth1", "/rt.Svc9/Nope"}).Draw(t, "mp")
+			r.MuxPath = rapid.SampledFrom([]string{"/rt.Svc0/Mth", "/rt.Svc1/Mth", "/rt.Svc9/Nope"}).Draw(t, "mp")
 			r.Body = rapid.SampledFrom([]string{`{"name":"tw"}`, `{}`, `{bad`}).Draw(t, "body")
 		default:
-			r.MuxPath = rapid.SampledFrom([]string{"/rt.Svc0/Mth0", "/rt.Svc1/Mth1", "/rt.Svc9/Nope"}).Draw(t, "mp")
+			r.MuxPath = rapid.SampledFrom([]string{"/rt.Svc0/Mth", "/rt.Svc1/Mth", "/rt.Svc9/Nope"}).Draw(t, "mp")
 			r.Body = rapid.SampledFrom([]string{"g1", "", "längeres"}).Draw(t, "gname")
 		}
 		// exclude stdlib redirects: bare prefix without trailing slash
